@@ -214,14 +214,54 @@ def check_scratch(ctx):
             attrs_read.add(n.value)
         if isinstance(n, ast.Call) and isinstance(n.func, ast.Attribute) and n.func.attr in ("add", "update", "append"):
             added.append(n)
-    ctx.check("C03.S", "get_current_registers:top-level-register", "Register" in isinst and bool(added),
-              "get_current_registers does not collect operands that are Registers", repo.loc(m, gcr))
-    for cname, attr in holders:
-        ok = cname in isinst and attr in attrs_read
-        ctx.check("C03.S", f"get_current_registers:{cname}.{attr}", ok,
-                  f"get_current_registers does not look at {cname}.{attr}, which can hold a Register: a register used only inside an array operand "
-                  f"can be picked as scratch register for a literal and be overwritten by the inserted `set`", repo.loc(m, gcr),
-                  sample={"holder": f"{cname}.{attr}", "isinstance": cname in isinst, "attr_read": attr in attrs_read})
+    # executed abstractly (nqsa/circuit.py): a command whose only register sits in the given place must yield that register's text
+    from .. import circuit as C
+    from ..model import EnumMember
+    rn = repo.get_class("netqasm.lang.encoding", "RegisterName")
+    rmem = ctx.ev.enum_members(rn)
+    opm = repo.module(I.OPERAND_MOD)
+    R_ = opm.classes["Register"]
+    icmd = repo.get_class("netqasm.lang.ir", "ICmd")
+    blab = repo.get_class("netqasm.lang.ir", "BranchLabel")
+
+    def reg(name, index):
+        return C.Obj(R_, {"name": EnumMember(rn.qualname, name, rmem[name]), "index": index})
+
+    def collected(operands):
+        cmds = [C.Obj(blab, {"name": "L"}), C.Obj(icmd, {"instruction": "X", "args": [], "operands": operands}), C.Obj(blab, {"name": "M"})]
+        try:
+            out = C.Interp(repo, ctx.ev, C.Scenario(), None).call_function(m, gcr, [cmds], {})
+        except C.EvalRaise as ex_:
+            return f"raises {ex_}"
+        return out
+
+    try:
+        got = collected([7, reg("R", 11), 3])
+        ctx.check("C03.S", "get_current_registers:top-level-register", isinstance(got, (set, list)) and "R11" in set(got),
+                  f"get_current_registers does not collect operands that are Registers (R11 as an operand gives {got!r})", repo.loc(m, gcr))
+        for cname, attr in holders:
+            hc = opm.classes[cname]
+            fields = {}
+            for n_, ann, val, k in repo.dataclass_fields(hc):
+                t = I.ann_types(ann)
+                if n_ == attr:
+                    fields[n_] = reg("R", 12)
+                elif "Register" in t and "int" in t:
+                    fields[n_] = 5   # the other register-bearing positions hold literals
+                elif "Register" in t:
+                    fields[n_] = reg("R", 13)
+                elif "Address" in t:
+                    fields[n_] = C.Obj(opm.classes["Address"], {"address": 0})
+                else:
+                    fields[n_] = 0
+            got = collected([C.Obj(hc, fields)])
+            ok = isinstance(got, (set, list)) and "R12" in set(got)
+            ctx.check("C03.S", f"get_current_registers:{cname}.{attr}", ok,
+                      f"get_current_registers does not look at {cname}.{attr}, which can hold a Register (R12 there gives {got!r}): a register used only inside an array operand "
+                      f"can be picked as scratch register for a literal and be overwritten by the inserted `set`", repo.loc(m, gcr),
+                      sample={"holder": f"{cname}.{attr}"})
+    except AnalysisError as ex_:
+        ctx.error("C03.S", f"get_current_registers cannot be evaluated: {ex_}")
     # the value that is recorded must be the one that was type-tested as a Register
     flows = []
     for c in added:
